@@ -73,9 +73,11 @@ def build(repo):
             (final(self).ver_type_tkl as int) / 64 == (old(self).ver_type_tkl as int) / 64,
             (final(self).ver_type_tkl as int) % 16 == (old(self).ver_type_tkl as int) % 16,
             final(self).code == old(self).code, final(self).message_id == old(self).message_id''', props=PROPS + ['C01'])
-    u.after(('impl Header', 'set_type'), r'let ver_tkl = (\w+) & self\.ver_type_tkl;',
+    u.after(('impl Header', 'set_type'), r'let ver_tkl = (?:self\.ver_type_tkl & )?(\w+)(?: & self\.ver_type_tkl)?;',
             '''        proof {
             let x = self.ver_type_tkl; let tn8: u8 = tn;
+            assert((\\g<1> & x) == (x & \\g<1>)) by (bit_vector);
+            assert forall|a: u8, b: u8| #[trigger] (a | b) == (b | a) by { assert((a | b) == (b | a)) by (bit_vector); }
             assert(tn8 <= 3 ==> ((tn8 << 4 | (\\g<1> & x)) / 16) % 4 == tn8) by (bit_vector);
             assert(tn8 <= 3 ==> (tn8 << 4 | (\\g<1> & x)) / 64 == x / 64) by (bit_vector);
             assert(tn8 <= 3 ==> (tn8 << 4 | (\\g<1> & x)) % 16 == x % 16) by (bit_vector);
